@@ -82,6 +82,10 @@ pub fn generate(tier: &str, rng: &mut Rng) -> Vec<String> {
         }
         out.push(c.line());
     }
+    // one frame above 64 KiB with more frames behind it in the same chunk (seed C07f), limits at and above it
+    for _ in 0..(if thorough { 400 } else { 40 }) {
+        out.push(gen_dec_big(rng, false).line());
+    }
     out.extend(gen_limits(tier, rng));
     // ---- dimensions added by the proactive audit (c06_x.rs)
     x::gen_dec_dims(&mut out);
